@@ -15,6 +15,8 @@
 //   st-closed-by-poll          a poll closed a connection with no timeout configured and not from TIME-WAIT
 //   st-failed-call-changed-state  listen/connect returned an error but the state changed
 //   api-connect-result / api-predicates  connect's result or is_open/is_active/is_listening/may_send differ from their RFC 9293 definition
+//   c04-ack-beyond-advertised-window / c04-sack-beyond-advertised-window (C04 on this stream): an emitted ACK number
+//                              or SACK block lies beyond the largest right edge put on the wire before (SYN: unscaled field)
 //   impl-panic / poll-livelock the real socket panicked / Interface::poll did not stop emitting (not C17 proper,
 //                              but a concrete failing input of the code the model covers)
 
@@ -57,6 +59,8 @@ struct Conn {
     adv_edge: Option<u32>,
     ws_ours: Option<u8>,
     ws_peer: bool,
+    /// window field of our own SYN (active open: it has no ACK number to anchor the edge yet)
+    syn_win: Option<u16>,
     iss: Option<u32>,
     irs: Option<u32>,
     consumed: u64,
@@ -65,11 +69,15 @@ struct Conn {
     listener: bool,
 }
 
+pub fn keep_class(f: &str, prefix: &str) -> bool {
+    f.starts_with(prefix) || f.starts_with("impl-panic") || f.starts_with("poll-livelock")
+}
+
 fn oracle_case(c: &Case, fails: &mut Vec<String>, stats: &mut BTreeMap<String, u64>) {
     let cfg = Cfg::from_case(c);
     let mut sim = Sim::new(&cfg);
     let mut isns = cfg.isns.clone();
-    let mut conn = Conn { adv_edge: None, ws_ours: None, ws_peer: false, iss: None, irs: None, consumed: 0, sent: 0, fin_rcvd: false, listener: false };
+    let mut conn = Conn { adv_edge: None, ws_ours: None, ws_peer: false, syn_win: None, iss: None, irs: None, consumed: 0, sent: 0, fin_rcvd: false, listener: false };
     let mut timeout: Option<i64> = None;
     let mut tw_enter: i64 = 0; // time TIME-WAIT was entered: the timer never expires before this + 10 s
     let mut tw_since: i64 = 0; // time of the last event that may have refreshed it (upper bound)
@@ -118,7 +126,7 @@ fn oracle_case(c: &Case, fails: &mut Vec<String>, stats: &mut BTreeMap<String, u
         match toks[0] {
             "listen" => {
                 if st.ret == "ok" && !(pre == S::Listen) {
-                    conn = Conn { adv_edge: None, ws_ours: None, ws_peer: false, iss: None, irs: None, consumed: 0, sent: 0, fin_rcvd: false, listener: true };
+                    conn = Conn { adv_edge: None, ws_ours: None, ws_peer: false, syn_win: None, iss: None, irs: None, consumed: 0, sent: 0, fin_rcvd: false, listener: true };
                 }
                 let ok = pre == post || (matches!(pre, S::Closed | S::TimeWait) && post == S::Listen);
                 if !ok {
@@ -131,7 +139,7 @@ fn oracle_case(c: &Case, fails: &mut Vec<String>, stats: &mut BTreeMap<String, u
             "connect" => {
                 if st.ret == "ok" {
                     let iss = if isns.is_empty() { None } else { Some(isns.remove(0)) };
-                    conn = Conn { adv_edge: None, ws_ours: None, ws_peer: false, iss, irs: None, consumed: 0, sent: 0, fin_rcvd: false, listener: false };
+                    conn = Conn { adv_edge: None, ws_ours: None, ws_peer: false, syn_win: None, iss, irs: None, consumed: 0, sent: 0, fin_rcvd: false, listener: false };
                 }
                 let ok = pre == post || (matches!(pre, S::Closed | S::TimeWait) && post == S::SynSent);
                 if !ok {
@@ -203,10 +211,13 @@ fn oracle_case(c: &Case, fails: &mut Vec<String>, stats: &mut BTreeMap<String, u
                 if pre == S::Listen && post == S::SynReceived {
                     // a new incarnation (also after a handshake RST returned the listener to LISTEN)
                     let iss = if isns.is_empty() { None } else { Some(isns.remove(0)) };
-                    conn = Conn { adv_edge: None, ws_ours: None, ws_peer: false, iss, irs: Some(seq), consumed: 0, sent: 0, fin_rcvd: false, listener: true };
+                    conn = Conn { adv_edge: None, ws_ours: None, ws_peer: false, syn_win: None, iss, irs: Some(seq), consumed: 0, sent: 0, fin_rcvd: false, listener: true };
                 }
                 if pre == S::SynSent && matches!(post, S::Established | S::SynReceived) {
                     conn.irs = Some(seq);
+                    if let (None, Some(w)) = (conn.adv_edge, conn.syn_win) {
+                        conn.adv_edge = Some(wadd(seq, 1 + w as i64)); // the SYN offered w octets from IRS+1
+                    }
                 }
                 // receiver quantities seen from outside
                 let rcv_nxt_pre = conn.irs.map(|i| wadd(i, 1 + conn.consumed as i64 + pre_rq as i64 + conn.fin_rcvd as i64));
@@ -340,16 +351,35 @@ fn oracle_case(c: &Case, fails: &mut Vec<String>, stats: &mut BTreeMap<String, u
         for t in &st.txs {
             if t.ctl == TcpControl::Syn {
                 conn.ws_ours = t.ws;
+                if t.ack.is_none() {
+                    conn.syn_win = Some(t.win);
+                }
             }
             if t.ctl == TcpControl::Rst {
                 continue;
             }
             if let Some(a) = t.ack {
+                // C04 on the wire: neither the ACK number nor a SACK block may lie beyond the right edge
+                // the socket had advertised before this frame (largest edge of all earlier frames)
+                if let Some(edge) = conn.adv_edge {
+                    // a received FIN takes one sequence number but no buffer space: once it is in, the ACK
+                    // number (and the SACK blocks, which smoltcp offsets from it) may be one past the edge
+                    let fin_slack = (conn.fin_rcvd || matches!(post, S::CloseWait | S::LastAck | S::Closing | S::TimeWait)) as i64;
+                    if sdiff(a, edge) > fin_slack {
+                        fail("c04-ack-beyond-advertised-window", format!("ack {} advertised edge {}", a, edge));
+                    }
+                    for (l, r) in &t.sack {
+                        if sdiff(*r, edge) > fin_slack {
+                            fail("c04-sack-beyond-advertised-window", format!("sack {}-{} advertised edge {}", l, r, edge));
+                        }
+                    }
+                }
                 let shift = match (conn.ws_ours, conn.ws_peer) {
                     (Some(w), true) => w.min(14) as u32,
                     _ => 0,
                 };
-                let w = if t.ctl == TcpControl::Syn { ((t.win as i64) >> shift) << shift } else { (t.win as i64) << shift };
+                // what this frame puts on the wire: the window field of a SYN is never scaled
+                let w = if t.ctl == TcpControl::Syn { t.win as i64 } else { (t.win as i64) << shift };
                 let e = wadd(a, w);
                 conn.adv_edge = Some(match conn.adv_edge {
                     Some(old) if sdiff(old, e) > 0 => old,
@@ -370,7 +400,9 @@ fn oracle_case(c: &Case, fails: &mut Vec<String>, stats: &mut BTreeMap<String, u
     }
 }
 
-fn oracle_main(seed: u64, n: usize, tier: &str, out: &mut dyn Write) {
+/// `only`: keep only the failure classes with this prefix (plus impl-panic / poll-livelock); the
+/// model-coverage pass is skipped then (sub-commands oracle-c04 / oracle-replay-c04 for C04's check)
+fn oracle_main(seed: u64, n: usize, tier: &str, out: &mut dyn Write, only: Option<&str>) {
     let mut rng = Rng::new(seed ^ 0x7C17);
     let mut fails = vec![];
     let mut stats: BTreeMap<String, u64> = BTreeMap::new();
@@ -382,6 +414,10 @@ fn oracle_main(seed: u64, n: usize, tier: &str, out: &mut dyn Write) {
     for c in &cases {
         let before = fails.len();
         oracle_case(c, &mut fails, &mut stats);
+        if let Some(pre) = only {
+            let kept: Vec<String> = fails.drain(before..).filter(|f| keep_class(f, pre)).collect();
+            fails.extend(kept);
+        }
         if fails.len() > before {
             writeln!(out, "FAILCASE").unwrap();
             c.write(out);
@@ -393,6 +429,7 @@ fn oracle_main(seed: u64, n: usize, tier: &str, out: &mut dyn Write) {
     // branch coverage of the model on these very cases: ask the extracted model (drv_tcp cov)
     let mut cov: BTreeMap<u32, u64> = BTreeMap::new();
     let drv = std::env::current_exe().ok().and_then(|p| Some(p.parent()?.parent()?.parent()?.parent()?.join("ocaml/bin/drv_tcp")));
+    let drv = if only.is_some() { None } else { drv };
     if let Some(drv) = drv.filter(|p| p.exists()) {
         let mut text = vec![];
         for c in &cases {
